@@ -92,6 +92,7 @@ def gen(variant):
     sched_srcs = glob.glob(VERIF + "/sched/*.cpp")
     sched_objs = compile_all(sched_srcs)
     w("build libsched.a: ar " + " ".join(sched_objs))
+    SCHED = " ".join(sched_objs)       # linked as objects so that the static initialiser of vsched.cpp is kept
 
     # nets
     w(f"build gennet.o: cxx {VERIF}/harness/tools/gennet.cpp")
@@ -105,9 +106,9 @@ def gen(variant):
     # engine binaries, one per net
     targets = []
     for n in NETS:
-        w(f"build texel-{n}: link {' '.join(app_objs)} nets/nn_{n}.o libtexel.a libsched.a")
+        w(f"build texel-{n}: link {' '.join(app_objs)} nets/nn_{n}.o libtexel.a {SCHED}")
         targets.append(f"texel-{n}")
-    w(f"build texelutil: link {' '.join(appu_objs)} nets/nn_rand1.o libtexelutil.a libtexel.a libsched.a")
+    w(f"build texelutil: link {' '.join(appu_objs)} nets/nn_rand1.o libtexelutil.a libtexel.a {SCHED}")
     targets.append("texelutil")
 
     # harnesses: every harness/*.cpp is one executable
@@ -118,11 +119,11 @@ def gen(variant):
         extra = ""
         if name in ("h_uciobj",):
             extra = " ".join(a for a in app_objs if not a.endswith("texel.cpp.o")) + " "
-        w(f"build {name}: link {o} {extra}nets/nn_rand1.o libtexelutil.a libtexel.a libsched.a")
+        w(f"build {name}: link {o} {extra}nets/nn_rand1.o libtexelutil.a libtexel.a {SCHED}")
         targets.append(name)
         if name in NET_HARNESSES:      # one executable per synthetic network
             for n in NETS:
-                w(f"build {name}-{n}: link {o} {extra}nets/nn_{n}.o libtexelutil.a libtexel.a libsched.a")
+                w(f"build {name}-{n}: link {o} {extra}nets/nn_{n}.o libtexelutil.a libtexel.a {SCHED}")
                 targets.append(f"{name}-{n}")
     w("default " + " ".join(targets))
     path = os.path.join(bdir, "build.ninja")
